@@ -26,6 +26,8 @@ def run(chk):
              "reaches SetZ(e1, e2, V->pt) on every path to an exit (callback installed; null results exempt)")
     chk.rule("ZCB.rebound", "ClipperD: after CheckCallback the engine's proxy callback is set iff the user's Z callback is set, whatever it was before "
              "(4 cells); every Execute overload calls CheckCallback before ExecuteInternal")
+    chk.rule("Z.out-point-fresh", "[USINGZ] every destination of GetSegmentIntersectPt (which assigns x and y only) is a local declared inside every "
+             "loop enclosing the call: no new vertex inherits the z a variable kept from an earlier iteration")
     chk.rule("Z.split", "DoSplitOp: zCallback_ is invoked on ip before ip is stored into an OutPt")
     chk.rule("Z.setz-table", "SetZ: ip equal to an end point takes its z (subject edge first), else DefaultZ; callback gets subject before clip")
     for b, z in pairs:
@@ -35,10 +37,12 @@ def run(chk):
         e7.rule_split(dz, chk, z)
         e7.rule_setz_table(dz, chk, z)
         e7.rule_zcb_rebound(dz, chk, z)
+        e7.rule_out_point_fresh(dz, chk, z)
     n = len(pairs)
     chk.floor("ZERASE", 450 * n)
     chk.floor("ZERASE.z-only-function", 6 * n)
     chk.floor("Z.must-follow", 12 * n)
+    chk.floor("Z.out-point-fresh", 6 * n)
     chk.floor("Z.setz-table", 32 * n)
     chk.explanation = (
         "The plain build has no z member at all, so a USINGZ function that is identical to the plain one up to Z-only constructs cannot let z "
